@@ -28,6 +28,7 @@ pub fn run(cfg: &Config) -> i32 {
 	add(&mut total, pf::fam_long_strings(cfg, flags, if cfg.san { 300 } else { 2300 }));
 	add(&mut total, pf::fam_long_lexemes(cfg, flags, if cfg.san { 200 } else { 1200 }));
 	add(&mut total, pf::fam_escape_runs(cfg, flags, if cfg.san { 40 } else { 72 }));
+	add(&mut total, pf::fam_nesting_patterns(cfg, flags, if cfg.san { 70 } else { 200 }));
 	add(&mut total, pf::fam_typed_impls(cfg, flags, if cfg.san { 3 } else { cfg.tier.pick(5, 6) as usize }));
 	conclude(
 		cfg,
